@@ -314,6 +314,16 @@ func Main() {
 		emit(lifeEpisode(work, seed, f))
 		return
 	}
+	if scenario == "crash-serve" {
+		crashServe(work, seed) // never returns: the driver kills the process
+	}
+	if strings.HasPrefix(scenario, "crash-recover:") {
+		var acked int
+		var now0 uint32
+		fmt.Sscanf(scenario, "crash-recover:%d:%d", &acked, &now0)
+		emit(crashRecover(work, seed, acked, now0))
+		return
+	}
 
 	dir := filepath.Join(work, "srv")
 	if err := os.MkdirAll(filepath.Join(dir, "watttime_data"), 0755); err != nil {
